@@ -527,6 +527,13 @@ func genC11Crafted(cfg Config, emit Emit) {
 	for k := 0; k < 6; k++ {
 		emit("reqcraft", []string{"identity-self", itoa(k), "-"}, "crafted/identity-self", true)
 	}
+	// caveats of every IPLD kind and shape at a capability whose caveats the library's struct reader binds
+	nbs := []TV{tvInt(7), tvStr("x"), tvBytes([]byte{1, 2}), tvBool(true), tvList(nil), tvList([]TV{tvInt(1)}), tvMap(nil),
+		tvMap([]KV{{"size", tvInt(3)}}), tvMap([]KV{{"size", tvStr("3")}}), tvMap([]KV{{"unknown", tvInt(1)}}), tvMap([]KV{{"size", tvInt(3)}, {"zz", tvList([]TV{tvMap(nil)})}}),
+		tvMap([]KV{{"label", tvMap([]KV{{"deep", tvList([]TV{tvBytes(nil)})}})}}), tvLink(cidPool[0]), tvMap([]KV{{"", tvInt(1)}})}
+	for _, nb := range nbs {
+		emit("reqcraft", []string{"nb", "lib/struct", mustJSON(nb)}, "crafted/nb-"+nb.T, true)
+	}
 }
 
 func execReqCraft(a []string) (res Result) {
@@ -558,6 +565,36 @@ func execReqCraft(a []string) (res Result) {
 			return Result{Impl: "skip:" + err.Error(), Oracle: "ok"}
 		}
 		body, _ = io.ReadAll(car.Encode([]ipld.Link{msg.Root().Link()}, msg.Blocks()))
+	case "nb":
+		var tv TV
+		json.Unmarshal([]byte(a[2]), &tv)
+		for pos := 0; pos < 2; pos++ { // as the invocation's own caveats, and in a proof it cites
+			var inv invocation.Invocation
+			var err error
+			if pos == 0 {
+				inv, err = invocation.Invoke(alice, svc, ucan.NewCapability(a[1], alice.DID().String(), tvBuilder{tv}), delegation.WithNoExpiration())
+			} else {
+				bob := edPool[5]
+				var prf delegation.Delegation
+				prf, err = delegation.Delegate(alice, bob, []ucan.Capability[tvBuilder]{ucan.NewCapability(a[1], alice.DID().String(), tvBuilder{tv})}, delegation.WithNoExpiration())
+				if err == nil {
+					inv, err = invocation.Invoke(bob, svc, ucan.NewCapability(a[1], alice.DID().String(), NbMap{F: map[string]any{}}), delegation.WithNoExpiration(), delegation.WithProof(delegation.FromDelegation(prf)))
+				}
+			}
+			if err != nil {
+				continue
+			}
+			msg, err := message.Build([]invocation.Invocation{inv, cw.D[0]}, nil)
+			if err != nil {
+				continue
+			}
+			b, _ := io.ReadAll(car.Encode([]ipld.Link{msg.Root().Link()}, msg.Blocks()))
+			impl, oracle := reqOutcome(cw, b, carHdr)
+			if pos == 1 || strings.HasPrefix(oracle, "fail") {
+				return Result{Impl: impl, Oracle: oracle}
+			}
+		}
+		return Result{Impl: "skip:nothing", Oracle: "ok"}
 	case "identity-self":
 		// token T cites the identity CID I of other bytes; the archive files T's bytes under I
 		k := atoi(a[1])
